@@ -33,6 +33,9 @@ class BuildWorld(DBWorld):
         self.fs_snapshots = []         # filesystem as of just before effect k
         self.db_committed = None       # last committed (files, deps)
         self.db_commits = []           # index into effects of each commit
+        self.envmap = {}
+        self.child_cwd = None
+        self.exec_argv = None
 
     # ------------------------------------------------------------ bookkeeping
     def snap_fs(self):
@@ -185,11 +188,65 @@ class BuildWorld(DBWorld):
     def log_tempfile(self, eng, sp):
         return ok(Opaque('NamedTempFile', None))
 
+    # ---- what the forked child does before exec (only when a spec runs the job closure)
+    def getenv(self, eng, k, os_string=True):
+        v = self.envmap.get(k)
+        if v is None:
+            return none() if os_string else err(Enum('VarError', 'NotPresent'))
+        val = Vec(list(v), 'OsString' if os_string else 'String')
+        return some(val) if os_string else ok(val)
+
+    def setenv(self, eng, k, v):
+        if v is None:
+            self.envmap.pop(k, None)
+        else:
+            self.envmap[k] = [ord(c) for c in v] if isinstance(v, str) else list(v)
+        self.ev('setenv', k=k)
+
+    def set_current_dir(self, eng, path, sp):
+        v = deref_all(path)
+        b = bytes(x for x in v.items)
+        self.child_cwd = b if b.startswith(b'/') else (self.cwd + b'/' + b)
+        self.ev('chdir', dir=self.child_cwd.decode('latin-1'))
+        return ok(UNIT)
+
+    def dup2(self, eng, a, b, sp):
+        self.ev('dup2', src=repr(a), dst=repr(b))
+        return ok(b)
+
+    def execvp(self, eng, prog, argv, sp):
+        def cstr(x):
+            x = deref_all(x)
+            items = list(x.items)
+            if items and items[-1] == 0:
+                items = items[:-1]
+            return bytes(items)
+        self.exec_argv = [cstr(a) for a in deref_all(argv).items]
+        self.ev('execvp', argv=[a.decode('latin-1') for a in self.exec_argv])
+        raise ProcessExit(0)
+
     def start_job(self, eng, handle, reason, closure, sp):
         """JobServerHandle::start: the child is not executed; the closure (everything the child would do up to execvp) is kept
         so that a spec can run it separately"""
         self.effect('job-start', reason=repr(reason))
         self.jobs.append(closure)
+        if getattr(self, 'run_child', False):
+            # fork(): the child works on a copy of the parent's memory.  The only captured state the child mutates is the
+            # Cell holding the capture file (it take()s it); it is restored for the parent afterwards.
+            cl = closure
+            while isinstance(cl, Ref):
+                cl = cl.get()
+            saved = []
+            for v in getattr(cl, 'f', []):
+                c = deref_all(v) if isinstance(v, Ref) else v
+                if isinstance(c, Struct) and c.name == 'Cell':
+                    saved.append((c, c.f[0]))
+            try:
+                self.child_rv = eng.call_closure(closure, [])
+            except ProcessExit:
+                self.child_rv = 'exec'
+            for c, v0 in saved:
+                c.f[0] = v0
         return ok(Opaque('Job', len(self.jobs) - 1))
 
 
@@ -221,6 +278,8 @@ def install(eng):
     s['<SystemTime as PartialEq>::eq'] = lambda e, ci, a, sp: deref_all(a[0]).data == deref_all(a[1]).data
     for op, fn in (('lt', lambda x, y: x < y), ('le', lambda x, y: x <= y), ('gt', lambda x, y: x > y), ('ge', lambda x, y: x >= y)):
         s['<SystemTime as PartialOrd>::' + op] = (lambda fn: lambda e, ci, a, sp: fn(float(deref_all(a[0]).data), float(deref_all(a[1]).data)))(fn)
+    s['set_current_dir'] = lambda e, ci, a, sp: e.world.set_current_dir(e, a[0], sp)
+    s['env::set_current_dir'] = s['set_current_dir']
     s['io::_eprint'] = lambda e, ci, a, sp: UNIT
     s['_eprint'] = s['io::_eprint']
     s['drop fs::File'] = lambda e, v: None
